@@ -373,3 +373,23 @@ def replay(cfg, path):
         return 0
     print("replay: implementation still disagrees with the model at line %d" % k)
     return 1
+
+
+def setup(all_props):
+    """build everything once (translator output, Lean library + driver, all harness binaries)"""
+    with core.Lock():
+        ok, out = core.regenerate()
+        if not ok:
+            print("setup: translator failed\n" + out[-3000:])
+            return 1
+        ok, out = core.lake_build([])
+        print(out[-1500:])
+        if not ok:
+            print("setup: lake build failed")
+            return 1
+        for pid in sorted(all_props):
+            ok, out = core.build_hv(pid)
+            if not ok:
+                print("setup: harness for %s does not build (its check will report it)\n%s" % (pid, out[-1500:]))
+    print("setup done")
+    return 0
